@@ -94,13 +94,49 @@ def run_cons(case, viol, obs):
     rng = gen.rng_for(case["rs"]); cls = case["cls"]; cyc = cls.endswith("Cycles")
     node = rng.random() < 0.2
     base = base_for(cls, rng, node)
+    if not cyc and not node and rng.random() < (0.6 if cls in ("kFlowDecomp", "MinFlowDecomp") else 0.25):
+        # 'waist' shape: several entrances and exits around one middle node (with optional stretches before / after it), so that planted
+        # paths cross in it and a constraint can pair the entrance of one with the exit of another
+        def waist(r_):
+            ni, no = r_.randint(2, 3), r_.randint(2, 3); nodes_ = ["m"]; edges_ = []
+            for i_ in range(ni):
+                nodes_.append(f"s{i_}")
+                if r_.random() < 0.4:
+                    nodes_.append(f"p{i_}"); edges_ += [(f"s{i_}", f"p{i_}"), (f"p{i_}", "m")]
+                else:
+                    edges_.append((f"s{i_}", "m"))
+            for j_ in range(no):
+                nodes_.append(f"t{j_}")
+                if r_.random() < 0.4:
+                    nodes_.append(f"q{j_}"); edges_ += [("m", f"q{j_}"), (f"q{j_}", f"t{j_}")]
+                else:
+                    edges_.append(("m", f"t{j_}"))
+            r_.shuffle(edges_)
+            return nodes_, edges_
+        base = I.dag_edge_base(rng, wt=rng.choice(["int", "int", "float"]), exact=(cls in W.FD) or rng.random() < 0.3, shape=waist, npaths=rng.randint(2, 4))
     if not base["planted"]:
         return None, False, None
     cons = I.constraints_from_planted(rng, base, n=rng.randint(1, 3), as_nodes=(rng.random() < 0.6) if node else None)
     if not cons:
         return None, False, None
     ckey = "subset_constraints" if cyc else "subpath_constraints"
-    kw = kw_for(cls, base, k=max(1, len(base["planted"])) + rng.choice([0, 1]))
+    crossing = False
+    if not cyc and not node and rng.random() < 0.4:
+        # a 'crossing' constraint: an edge of one planted path into a shared node followed by an edge of ANOTHER planted path out of it. No planted
+        # path (and typically no path of a greedy decomposition) contains both, although different paths contain one each; one more path
+        # (weight 0 if need be) through the crossing satisfies it, so k = planted + 1 keeps every k-model feasible
+        pl = [p_ for p_, _ in base["planted"]]
+        for A in pl:
+            for B in pl:
+                shared = [v for v in A[1:-1] if v in B[1:-1]] if A is not B else []
+                if shared and not crossing:
+                    v = rng.choice(shared); i_ = A.index(v); j_ = B.index(v)
+                    ea = (A[i_ - 1], A[i_]); eb = (B[j_], B[j_ + 1])
+                    if (B[j_ - 1], B[j_]) != ea and (A[i_], A[i_ + 1]) != eb:
+                        cons = [[ea, eb]] + list(cons); crossing = True
+        if crossing:
+            obs["c10.crossing_constraints"] += 1
+    kw = kw_for(cls, base, k=max(1, len(base["planted"])) + (1 if crossing else rng.choice([0, 1])))
     if "optimization_options" in kw and rng.random() < 0.5:
         del kw["optimization_options"]          # library defaults (greedy pre-check on)
     kw[ckey] = gen.jl(cons)
